@@ -35,7 +35,8 @@ class Prop(common.PropertyCheck):
         combos = [(False, True, 2, 2), (True, False, 1, 3)] if self.tier == 'quick' else \
                  [(p, h, ni, ca) for p in (False, True) for h in (False, True) for ni in (1, 2) for ca in (1, 2, 3)]
         for plot, hist, ninst, arity in combos:
-            yield {'k': 'run', 'plot': plot, 'hist': hist, 'ninst': ninst, 'arity': arity, 'default_out': rng.random() < 0.5, 'seed': rng.randrange(1 << 30)}
+            yield {'k': 'run', 'plot': plot, 'hist': hist, 'ninst': ninst, 'arity': arity, 'default_out': rng.random() < 0.5 or (plot and not hist), 'seed': rng.randrange(1 << 30),
+                   'inp_name': rng.choice(['samples', 'cells', 'mix.xls', 'xlsx', 'results.'] + ([] if (plot and not hist) else ['experiment', 'plate_07']))}
         for _ in range(self.budget(25, 300)):
             yield {'k': 'roundtrip', 'seed': rng.randrange(1 << 30), 'nrows': rng.randrange(0, 7), 'dup': rng.random() < 0.2, 'noid': rng.random() < 0.5}
         if self.tier == 'thorough':
@@ -113,6 +114,8 @@ class Prop(common.PropertyCheck):
             ex.write_fcs('FCFiles/s1.fcs', 'FC001', n=650, seed=case['seed'] % 1000 + 6)
             srows.append(excelgen.sample_row('S0', 'FC001', 'FCFiles/s0.fcs', {'FL1': 'MEF', 'FL2': 'a.u.'}, 'B1', extra={'Strain': 'x', 'Dose': 1.5}))
             srows.append(excelgen.sample_row('S1', 'FC001', 'FCFiles/s1.fcs', {'FL1': 'Channel', 'FL3': 'mef'}, 'B1', gate_fraction=0.5, extra={'Strain': 'y', 'Dose': 0}))
+            # a row used for gating and event counts only: no units cell filled in
+            srows.append(excelgen.sample_row('S2', 'FC001', 'FCFiles/s1.fcs', {}, 'B1', gate_fraction=0.7, extra={'Strain': 'w', 'Dose': 3}))
             if case['ninst'] == 2:
                 ex.write_fcs('FCFiles/t0.fcs', 'FC002', n=650, seed=case['seed'] % 1000 + 7)
                 srows.append(excelgen.sample_row('T0', 'FC002', 'FCFiles/t0.fcs', {'GFP-A': 'RFI'}, None, extra={'Strain': 'z', 'Dose': 2}))
@@ -120,7 +123,7 @@ class Prop(common.PropertyCheck):
             samples = pd.DataFrame(srows)
             # a row without identifier (a comment) in each sheet: must be dropped on reading
             samples = pd.concat([samples, pd.DataFrame([{'ID': np.nan, 'Strain': 'comment without id'}])], ignore_index=True)
-            inp = os.path.join(ex.dir, 'experiment.xlsx')
+            inp = os.path.join(ex.dir, case.get('inp_name', 'experiment') + '.xlsx')
             with pd.ExcelWriter(inp, engine='openpyxl') as w:
                 inst.reset_index().to_excel(w, sheet_name='Instruments', index=False)
                 beads.to_excel(w, sheet_name='Beads', index=False)
@@ -130,8 +133,8 @@ class Prop(common.PropertyCheck):
                 warnings.simplefilter('ignore')
                 np.random.seed(9)
                 FlowCal.excel_ui.run(input_path=inp, output_path=outp, verbose=False, plot=case['plot'], hist_sheet=case['hist'])
-            outp = outp or os.path.join(ex.dir, 'experiment_output.xlsx')
-            res = {'exists': os.path.exists(outp)}
+            outp = outp or os.path.join(ex.dir, case.get('inp_name', 'experiment') + '_output.xlsx')
+            res = {'exists': os.path.exists(outp), 'workbooks': sorted(f for f in os.listdir(ex.dir) if f.endswith('.xlsx'))}
             if not res['exists']:
                 return res
             xl = pd.ExcelFile(outp, engine='openpyxl')
@@ -203,7 +206,8 @@ class Prop(common.PropertyCheck):
                 return 'example workbook: row errors %s' % impl['errors'][:2]
             return None if impl['nfig'] >= 20 else 'example workbook: only %d figures' % impl['nfig']
         if not impl.get('exists'):
-            return 'no output workbook was written'
+            return 'no output workbook at the documented path (input %s.xlsx, explicit output path: %s); workbooks present: %s' % (
+                case.get('inp_name'), not case['default_out'], impl.get('workbooks'))
         want = ['Instruments', 'Beads', 'Samples'] + (['Histograms'] if case['hist'] else []) + ['About Analysis']
         if impl['sheets'] != want:
             return 'output sheets %s, documented %s' % (impl['sheets'], want)
